@@ -3,8 +3,9 @@
     control behaviour of tracks (volumes, fades, pause state, route volumes, spatialisation) and
     the output stage; nothing is assumed about any of them, so every statement holds bit-for-bit
     for IEEE binary32 frames and for every sound / effect / tween / pause history. *)
-From Coq Require Import List Arith Bool PeanoNat.
+From Coq Require Import List Arith Bool PeanoNat Reals.
 From KV Require Import C02.Model C02.ProofsList C02.ProofsRefine C02.ProofsCor C02.ProofsLog C02.ProofsClosed.
+From KV Require C02.Examples.
 Import ListNotations.
 
 (** The buffer-level `Mixer::process` (shared temp buffers, slices, zip-truncated `+=`,
@@ -109,14 +110,31 @@ Proof. exact exactly_once_in_order. Qed.
                   + main-track sounds ) *)
 Theorem closed_form_semiring :
   forall (A : Type) (rO rI : A) (radd rmul : A -> A -> A),
-    semi_ring_theory rO rI radd rmul eq ->
-    forall (tI tSS tES tCS tO : Type) (snd_proc : tI -> tSS -> nat -> tSS * list A)
-           (fx_proc : tI -> tES -> list A -> tES * list A) (ctl_env : tCS -> tI -> tI)
-           (ctl_step : tI -> tCS -> nat -> tCS * tctl A A) (res_step : tI -> nat -> tI) (out_frame : nat -> A -> list tO),
-      let O := Build_ops A A tI tSS tES tCS tO rO radd rmul snd_proc fx_proc ctl_env ctl_step res_step out_frame in
+    Ring_theory.semi_ring_theory rO rI radd rmul eq ->
+    forall (TI TSS TES TCS TO : Type) (snd_proc : TI -> TSS -> nat -> TSS * list A)
+           (fx_proc : TI -> TES -> list A -> TES * list A) (ctl_env : TCS -> TI -> TI)
+           (ctl_step : TI -> TCS -> nat -> TCS * tctl A A) (res_step : TI -> nat -> TI) (out_frame : nat -> A -> list TO),
       (forall env cs n i x, c_spat (snd (ctl_step env cs n)) i x = x) ->
-      forall (env : tI) (sx : smixer O) (m i : nat),
-        no_fx_mixer O sx -> i < m ->
-        nth i (snd (spec_mix O env sx m)) rO =
-        closed_form A rO rI radd rmul O env sx m i.
+      forall (env : TI)
+             (sx : smixer (semiring_ops A rO radd rmul TI TSS TES TCS TO snd_proc fx_proc ctl_env ctl_step res_step out_frame))
+             (m i : nat),
+        no_fx_mixer A rO radd rmul TI TSS TES TCS TO snd_proc fx_proc ctl_env ctl_step res_step out_frame sx ->
+        i < m ->
+        nth i (snd (spec_mix (semiring_ops A rO radd rmul TI TSS TES TCS TO snd_proc fx_proc ctl_env ctl_step res_step out_frame) env sx m)) rO =
+        closed_form A rO rI radd rmul TI TSS TES TCS TO snd_proc fx_proc ctl_env ctl_step res_step out_frame env sx m i.
 Proof. exact closed_form_holds. Qed.
+
+(** ... in particular over the real numbers *)
+Theorem closed_form_R :
+  forall (TI TSS TES TCS TO : Type) (snd_proc : TI -> TSS -> nat -> TSS * list R)
+         (fx_proc : TI -> TES -> list R -> TES * list R) (ctl_env : TCS -> TI -> TI)
+         (ctl_step : TI -> TCS -> nat -> TCS * tctl R R) (res_step : TI -> nat -> TI) (out_frame : nat -> R -> list TO),
+    (forall env cs n i x, c_spat (snd (ctl_step env cs n)) i x = x) ->
+    forall (env : TI)
+           (sx : smixer (semiring_ops R 0%R Rplus Rmult TI TSS TES TCS TO snd_proc fx_proc ctl_env ctl_step res_step out_frame))
+           (m i : nat),
+      no_fx_mixer R 0%R Rplus Rmult TI TSS TES TCS TO snd_proc fx_proc ctl_env ctl_step res_step out_frame sx ->
+      i < m ->
+      nth i (snd (spec_mix (semiring_ops R 0%R Rplus Rmult TI TSS TES TCS TO snd_proc fx_proc ctl_env ctl_step res_step out_frame) env sx m)) 0%R =
+      closed_form R 0%R 1%R Rplus Rmult TI TSS TES TCS TO snd_proc fx_proc ctl_env ctl_step res_step out_frame env sx m i.
+Proof. exact closed_form_holds_R. Qed.
